@@ -780,6 +780,12 @@ pub fn run(cx: &mut Ctx) {
                     run_seq(c, &start, &[SOp::Deallocate(a, usize::MAX - k, true)]);
                 }
                 run_seq(c, &start, &[SOp::Deallocate(usize::MAX - k, 4, false)]);
+                // invalid insert requests (misaligned / out-of-range address, or misaligned amount)
+                // with amounts near the integer limit must be rejected like any other invalid request
+                run_seq(c, &start, &[SOp::Allocate(2, (usize::MAX - k) & !3, false)]);
+                run_seq(c, &start, &[SOp::Allocate(16, (usize::MAX - k) & !3, true)]);
+                run_seq(c, &start, &[SOp::Allocate(4, (usize::MAX - k) | 1, true)]);
+                run_seq(c, &start, &[SOp::WriterAllocate(6, (usize::MAX - k) & !3, false)]);
                 run_seq(c, &start, &[SOp::Allocate(usize::MAX - k, 4, false)]);
                 run_seq(c, &start, &[SOp::Truncate(usize::MAX - k)]);
                 run_seq(c, &start, &[SOp::WriterAllocate(usize::MAX - k, 4, false)]);
